@@ -21,7 +21,7 @@ PROP = "C06"
 def generate(streams, tier):
     big = tier == "thorough"
     r = streams.s("kind")
-    world = W.gen_bn(streams, max_n=5, min_n=1, max_card=4, max_parents=3, max_joint=1024, force_str_labels=True, allow_card1=r.random() < 0.3,
+    world = W.gen_bn(streams, max_n=5, min_n=1, max_card=4, max_parents=3, max_joint=1024, force_str_labels="or_int", allow_card1=r.random() < 0.3,
                      state_modes=[("str", 3), ("int_sorted", 2), ("int", 1)])
     config = W.gen_bn_config(streams, world)
     rd = streams.s("data")
